@@ -19,7 +19,7 @@ func init() {
 		Explain: "Decides the plumbing that makes a writer failure visible and the output a prefix: (F) Render returns either the error of the walk (under err != nil) or the value of Flush() on the very BufWriter every render function wrote to — never a constant nil — and Convert returns Render's result unchanged; ast.Walk returns only errors produced by the walker; (1) every sink in every render function and helper writes to the BufWriter handed down from Render (no second writer, no deferred replay, no goroutine), so with bufio.Writer's sticky error bytes reach the destination in program order and nothing is written after the first failure; (N) no render function looks at a write result or returns a non-nil error, so no control flow (and no panic) depends on the failure. Does NOT decide the behaviour of a caller-supplied non-sticky BufWriter.",
 		Trusted: []string{"bufio.Writer: sticky error, Flush reports it, writes are ordered"},
 		Assumes: []string{"a caller-supplied util.BufWriter behaves like bufio.Writer"},
-		Rules:   []func(*World, *Report){ruleRenderReturnsFlush, ruleWalkErrors, ruleRenderFuncsNilError, ruleSingleChannel, ruleNoWriteResultUse, ruleConvertShape},
+		Rules:   []func(*World, *Report){ruleRenderReturnsFlush, ruleWalkErrors, ruleRenderFuncsNilError, ruleSingleChannel, ruleNoWriteResultUse, ruleConvertShape, ruleConvertWrappersPassThrough},
 	})
 }
 
@@ -508,4 +508,88 @@ func liveRefs(v ssa.Value) []ssa.Instruction {
 		}
 	}
 	return out
+}
+
+// ---- C14-P ------------------------------------------------------------------------------------------------
+
+// ruleConvertWrappersPassThrough: convenience entry points in front of Markdown.Convert (today: the package-level
+// goldmark.Convert) hand the caller's source, writer and options through unchanged and return the result unchanged.
+func ruleConvertWrappersPassThrough(w *World, r *Report) {
+	r.Rule("C14-P", "Every module function that calls Markdown.Convert (other than an implementation of it) is a pure pass-through: the source, the writer and the options are its own parameters, unchanged; the call's result is returned unchanged; it makes no other call. A wrapper that interposes its own (pooled) buffer in front of the caller's writer takes the final Flush — and with it the error — away from the writer the caller handed in, and keeps state between calls.")
+	entries := map[*ssa.Function]bool{}
+	for _, f := range w.Entries().Convert {
+		entries[f] = true
+	}
+	n := 0
+	for _, fn := range w.Funcs {
+		if entries[fn] || fn.Parent() != nil {
+			continue
+		}
+		var conv []*ssa.Call
+		nOther := 0
+		for _, b := range fn.Blocks {
+			for _, ins := range b.Instrs {
+				c, ok := ins.(ssa.CallInstruction)
+				if !ok {
+					continue
+				}
+				com := c.Common()
+				isConv := false
+				if com.IsInvoke() && com.Method.Name() == "Convert" && typeShort(com.Value.Type()) == "goldmark.Markdown" {
+					isConv = true
+				} else if cal := com.StaticCallee(); cal != nil && entries[cal] {
+					isConv = true
+				}
+				if isConv {
+					if cc, ok := c.(*ssa.Call); ok {
+						conv = append(conv, cc)
+					} else {
+						nOther++ // go/defer of Convert
+					}
+				} else if builtinName(com) == "" {
+					nOther++
+				}
+			}
+		}
+		if len(conv) == 0 {
+			continue
+		}
+		n++
+		key := w.FnKey(fn) + ": pass-through to Markdown.Convert"
+		var why []string
+		if len(conv) != 1 {
+			why = append(why, fmt.Sprintf("%d Convert calls", len(conv)))
+		}
+		if nOther > 0 {
+			why = append(why, fmt.Sprintf("%d other call(s) around the conversion", nOther))
+		}
+		isParam := func(v ssa.Value) bool {
+			p, ok := v.(*ssa.Parameter)
+			return ok && p.Parent() == fn
+		}
+		for _, c := range conv {
+			args := c.Common().Args
+			if !c.Common().IsInvoke() && len(args) > 0 {
+				args = args[1:]
+			}
+			for i, a := range args {
+				if !isParam(a) {
+					why = append(why, fmt.Sprintf("argument %d of Convert is not the wrapper's own parameter", i))
+				}
+			}
+			for _, b := range fn.Blocks {
+				if ret, ok := b.Instrs[len(b.Instrs)-1].(*ssa.Return); ok {
+					if len(ret.Results) != 1 || ret.Results[0] != ssa.Value(c) {
+						why = append(why, "does not return Convert's result unchanged")
+					}
+				}
+			}
+		}
+		if len(why) == 0 {
+			r.OK(key, w.FnPos(fn), "single call with the wrapper's own parameters, result returned unchanged")
+		} else {
+			r.Bad(key, w.FnPos(fn), strings.Join(uniqStrings(why), "; "))
+		}
+	}
+	r.Expect("wrappers around Markdown.Convert", n, 1)
 }
